@@ -1,11 +1,18 @@
 /-
   C02 — nothing is reported that the body does not do (no phantom name, right kind).
 
-  Model: `FnA.visit … / FnA.analyse` (RattrModel/FnAnalyser.lean). Spec: `AccessSpec`
-  (RattrProofs/Lemmas/VisitSpec.lean) + the justification rules below.
+  Model: `FnA.visit … / FnA.analyse` (RattrModel/FnAnalyser.lean). Spec: the occurrence list
+  `Justify.occL` and the inductive `Justify.Justified` (RattrProofs/Lemmas/VisitJust.lean): one
+  constructor per documented derivation (spelled occurrence of the right kind / receiver prefix /
+  getattr-family target or prefix) plus the two plugin derivations written out precisely
+  (`sortedSubst`, `defaultdictFactory`).
 
-  C02 is believed to HOLD on the pinned code; no counterexample is known. Proved here, for all
-  inputs:
+  C02 HOLDS on the pinned code: `C02_full_holds` — for EVERY body (every constructor, every
+  context, every plugin), every name `analyse` returns under gets / sets / dels / calls is
+  `Justified`. The proof carries the invariant `Justify.Just body` ("everything recorded so far is
+  justified") through the whole mutual visitor block (`Justify.visit_just …`), exactly like
+  `visit_mono` carries `StLe`.
+  Also proved, for all inputs:
     * `C02_kind_by_ctx`: `update_results` touches exactly the set selected by the expression
       context and adds exactly the given name;
     * `C02_name_spelling`: visiting a name chain adds exactly its README spelling (with its root
@@ -13,79 +20,51 @@
     * `C02_fresh_ir`, `C02_scope_balance`: `analyse` starts from the empty IR in a fresh scope
       (a function of `(env, mn, root, ps, body)` only) and returns a context as deep as `root`;
     * `C02_receiver_prefixes`: the receiver-prefix rule only adds dotted prefixes (≥ 2 components,
-      strictly shorter than the callee name) with the first component as basename.
-    * `C02_partial`: the full upper bound on the fragment "generic nodes over pure chains".
-  NOT proved: `C02_full` itself (the upper bound for every constructor). It needs the invariant
-  "everything in the IR is justified by the part of the body visited so far" carried through the
-  whole mutual block, exactly like `visit_mono` in Lemmas/Visit.lean carries `StLe`; the
-  per-constructor facts above are the leaves of that induction.
+      strictly shorter than the callee name) with the first component as basename;
+    * `C02_partial`: on the fragment "generic nodes over pure chains" the IR is exactly the
+      spec's access list;
+    * `C02_strict_cex_*`: without the two plugin disjuncts the statement would be false
+      (by-design derivations outside the property's documented list).
+  [interp] (i) spellings are those of rattr's namer `names_of` (README agreement is C10);
+  (ii) an assignment target is "stored" by position (`Role.target`), a walrus records the BASE
+  name of its target (= its spelling for the only valid target, a bare Name: `walrus_name`);
+  (iii) whether a getattr-family target is filed under get / set / del depends on which builtin
+  the callee resolves to in the context, so `Justified.xattr` allows the three name kinds.
 -/
 import RattrProofs.Lemmas.Visit
 import RattrProofs.Lemmas.VisitSpec
+import RattrProofs.Lemmas.VisitJust
+import RattrProofs.Props.C01
 
 namespace Rattr.C02
-open Rattr Rattr.FnA Rattr.Strs Rattr.AccessSpec
+open Rattr Rattr.FnA Rattr.Strs Rattr.AccessSpec Rattr.Justify
 
 /-! ### full statement -/
 
-mutual
-/-- every nameable node ANYWHERE in the sub-tree (inner links of chains, callee expressions and
-nested scopes included): names with the kind of their ctx, calls as kind `call`. -/
-def occ : Node → List Access
-  | .name id c => [⟨kindOf c, id, id⟩]
-  | .attr v a c => ⟨kindOf c, spell (.attr v a c), baseOf v⟩ :: occ v
-  | .sub v sl c => ⟨kindOf c, spell (.sub v sl c), baseOf v⟩ :: occ v ++ occ sl
-  | .starred v c => ⟨kindOf c, spell (.starred v c), baseOf v⟩ :: occ v
-  | .call f args _ kwv => ⟨.call, withoutCallBrackets (spell f), baseOf f⟩ :: occ f ++ occL args ++ occL kwv
-  | .lam _ body => occ body
-  | .comp _ elts gens => occL gens ++ occL elts
-  | .gen t it ifs => occ t ++ occ it ++ occL ifs
-  | .walrus t v => occ t ++ occ v
-  | .strConst _ => []
-  | .const => []
-  | .seq _ elts _ => occL elts
-  | .dict ks vs => occL ks ++ occL vs
-  | .assign ts v => occL ts ++ occ v
-  | .annAssign t ann v => occ t ++ occ ann ++ occL v
-  | .augAssign t v => occ t ++ occ v
-  | .delete ts => occL ts
-  | .forLoop t it body orelse => occ t ++ occ it ++ occL body ++ occL orelse
-  | .withStmt items body => occL items ++ occL body
-  | .withitem ce vars => occ ce ++ occL vars
-  | .funcDef _ _ body => occL body
-  | .classDef _ => []
-  | .ret v => occL v
-  | .forbidden _ => []
-  | .other _ kids => occL kids
-def occL : List Node → List Access
-  | [] => []
-  | n :: r => occ n ++ occL r
-end
-
-/-- `p` is a dotted prefix of `name` with at least 2 components and strictly fewer than `name`. -/
-def IsReceiverPrefix (p name : Str) : Prop :=
-  ∃ i, 2 ≤ i ∧ i < (splitDot name).length ∧ p = joinDot ((splitDot name).take i)
-
-/-- the callee names of the custom-analysed calls (plugins) of the pinned code. -/
-def pluginCallees : List Str :=
-  ["getattr".toList, "hasattr".toList, "setattr".toList, "delattr".toList, "sorted".toList,
-   "defaultdict".toList, "collections.defaultdict".toList]
-
-/-- a reported `(kind, name)` is justified by the body. The last disjunct is deliberately coarse
-(and NAMED): "the body contains a call to a custom-analysed callee" stands for the three plugin
-derivations (getattr-family target and its prefixes; `sorted(xs, key=lambda x: x.k)` ↦ `xs.k`;
-`defaultdict(factory)` ↦ call `factory`) that DESIGN §5 lists as separate disjuncts. -/
-def Justified (body : List Node) (k : Kind) (n : Str) : Prop :=
-  (∃ a ∈ occL body, a.kind = k ∧ a.name = n) ∨                                      -- (occ)
-  (k = .get ∧ ∃ a ∈ occL body, a.kind = .call ∧ IsReceiverPrefix n a.name) ∨         -- (prefix)
-  ((removeChar n '*').head? = some '@') ∨                                            -- (standin)
-  (∃ a ∈ occL body, a.kind = .call ∧ a.name ∈ pluginCallees)                         -- (plugin)
-
+/-- every name of every kind that `analyse` reports is justified by the body (`Justify.Justified`:
+spelled occurrence of the right kind anywhere in the body, receiver prefix, getattr-family target
+or prefix, `sorted`-key substitution, `defaultdict` factory call). -/
 def C02_full : Prop :=
   ∀ (env : Env) (mn : Str) (root : Context) (ps : Params) (body : List Node) (s' : St),
     analyse env mn root ps body = .ok s' →
       (∀ x ∈ s'.gets, Justified body .get x.full) ∧ (∀ x ∈ s'.sets, Justified body .set x.full) ∧
       (∀ x ∈ s'.dels, Justified body .del x.full) ∧ (∀ c ∈ s'.calls, Justified body .call c.name)
+
+/-- C02 holds, for every body, context, environment and plugin table. -/
+theorem C02_full_holds : C02_full := by
+  intro env mn root ps body s' h
+  have hj := analyse_just h
+  exact ⟨hj.gets, hj.sets, hj.dels, hj.calls⟩
+
+/-- the same invariant for any sub-tree of the body, from any justified state. -/
+theorem C02_visit_justified (env : Env) (mn : Str) (n : Node) (s s' : St) (body : List Node)
+    (hsub : Sub n body) (hj : Just body s) (h : visit env mn n s = .ok s') : Just body s' :=
+  visit_just env mn n s body hsub hj s' h
+
+/-- a walrus records the base name of its target; for a valid target (a bare Name) that is the
+target's spelling. -/
+theorem C02_walrus_name (id : Str) (c : ECtx) (n f : Str)
+    (h : namesOf false (.name id c) = .ok n f) : n = id ∧ f = id := walrus_name id c n f h
 
 /-! ### `update_results` -/
 
@@ -161,40 +140,17 @@ theorem C02_scope_balance_visit (env : Env) (mn : Str) (n : Node) (s s' : St) (h
 
 /-! ### the receiver-prefix rule -/
 
-theorem mem_drop_one_range {n j : Nat} (h : j ∈ (List.range n).drop 1) : 1 ≤ j ∧ j < n := by
-  obtain ⟨i, hi, rfl⟩ := List.mem_iff_getElem.mp h
-  simp at hi ⊢
-  omega
-
 /-- every name the rule `a.b.c()` ↦ gets `a.b` adds is a dotted prefix of the callee name with at
 least 2 components, strictly shorter than the callee name (i.e. a prefix of the receiver), and its
 basename is the first component. -/
 theorem C02_receiver_prefixes (fullname : Str) (x : NameS) (hx : x ∈ receiverPrefixes fullname) :
     IsReceiverPrefix x.full (withoutCallBrackets fullname) ∧
-    (splitDot (withoutCallBrackets fullname)).head? = some x.base := by
-  unfold receiverPrefixes at hx
-  simp only at hx
-  unfold IsReceiverPrefix
-  generalize splitDot (withoutCallBrackets fullname) = comps at hx ⊢
-  cases hp : comps.dropLast with
-  | nil => rw [hp] at hx; simp at hx
-  | cons p0 r =>
-    rw [hp] at hx
-    simp only at hx
-    obtain ⟨j, hj, rfl⟩ := List.mem_map.mp hx
-    obtain ⟨h1, h2⟩ := mem_drop_one_range hj
-    have hlen : comps.dropLast.length = comps.length - 1 := List.length_dropLast
-    rw [hp] at hlen
-    refine ⟨⟨j + 1, by omega, by omega, ?_⟩, ?_⟩
-    · simp only
-      rw [← hp, List.dropLast_eq_take, List.take_take]
-      congr 2
-      omega
-    · simp only
-      match comps, hp with
-      | a :: b :: r', hp =>
-        simp only [List.dropLast, List.cons.injEq] at hp
-        simp [hp.1]
+    (splitDot (withoutCallBrackets fullname)).head? = some x.base :=
+  receiverPrefixes_spec fullname x hx
+
+/-- the getattr-family rule adds the target and every proper dotted prefix of it. -/
+theorem C02_xattr_prefixes (full : Str) (x : NameS) (hx : x ∈ lhsNames full) :
+    IsDottedPrefix x.full full := lhsNames_spec full x hx
 
 /-! ### the upper bound on a fragment -/
 
@@ -222,7 +178,67 @@ theorem C02_partial (env : Env) (mn : Str) (root : Context) (ps : Params) (body 
     · cases h0
     · exact h0
 
+/-! ### the plugin derivations are needed (strict variant is false) -/
+
+def S (x : String) : Str := x.toList
+def xk : Node := .attr (.name (S "x") .load) (S "k") .load
+def keyLam : Node := .lam ⟨[], [S "x"], none, [], none⟩ xk
+/-- `sorted(xs, key=lambda x: x.k)` -/
+def sortedBody : List Node :=
+  [.other (S "Expr") [.call (.name (S "sorted") .load) [.name (S "xs") .load] [some (S "key")] [keyLam]]]
+/-- `defaultdict(a.f)` -/
+def ddBody : List Node :=
+  [.other (S "Expr") [.call (.name (S "defaultdict") .load) [.attr (.name (S "a") .load) (S "f") .load] [] []]]
+
+/-- no occurrence of `body` (of any role) is spelled `n` by the namer. -/
+def noneSpelled (body : List Node) (n : Str) : Bool :=
+  (occL body).all fun o => match namesOf true o.2 with
+    | .ok _ f => f != n && withoutCallBrackets f != n
+    | _ => true
+
+/-- `sorted(xs, key=lambda x: x.k)` reports the get `xs.k`, which no node of the body spells: the
+`sortedSubst` derivation is not covered by the property's documented list (by-design plugin
+behaviour; [interp] allowed as a named constructor of `Justified`). -/
+theorem C02_strict_cex_sorted :
+    C01.getsOf (C01.run ["xs"] sortedBody) = some [S "xs", S "xs.k"] ∧
+    noneSpelled sortedBody (S "xs.k") = true := by decide +kernel
+
+/-- `defaultdict(a.f)` reports a call `a.f`, though the body never calls `a.f`. -/
+theorem C02_strict_cex_defaultdict :
+    C01.callsOf (C01.run ["a"] ddBody) = some [S "a.f"] ∧
+    (occL ddBody).all (fun o => match o.1, namesOf true o.2 with
+      | .call, .ok _ f => withoutCallBrackets f != S "a.f"
+      | _, _ => true) = true := by decide +kernel
+
 /-! ### non-vacuity -/
+
+/-- `Justified.sortedSubst` is inhabited by exactly the derivation of `C02_strict_cex_sorted`. -/
+example : Justified sortedBody .get (S "xs.k") := by
+  have hx : Justified [xk] .get (S "x.k") :=
+    .occ .load xk (by simp [occL, occ, xk, roleOf]) ⟨rfl, true, S "x", by simp [namesOf, xk, S]⟩
+  have h := Justified.sortedSubst (body := sortedBody) (.name (S "sorted") .load) (.name (S "xs") .load)
+    [] [some (S "key")] [keyLam] ⟨[], [S "x"], none, [], none⟩ xk (S "xs") (S "xs") false
+    (by simp [sortedBody, occL, occ]) (by simp [keyLam]) (by simp [namesOf]) hx (by decide) (by decide)
+  exact h
+
+/-- `Justified.defaultdictFactory` likewise. -/
+example : Justified ddBody .call (S "a.f") := by
+  have h := Justified.defaultdictFactory (body := ddBody) (.name (S "defaultdict") .load)
+    (.attr (.name (S "a") .load) (S "f") .load) [] [] [] (S "a") (S "a.f")
+    (by simp [ddBody, occL, occ]) (by simp [namesOf, S])
+  exact h
+
+/-- `C02_full_holds` is not vacuous: `analyse` succeeds with a non-empty IR on these bodies
+(`C02_strict_cex_*`), and on every body of `C01`'s counterexample list. -/
+example : ∃ s', C01.run ["xs"] sortedBody = .ok s' ∧ s'.gets ≠ [] := by
+  have h := C02_strict_cex_sorted.1
+  cases hr : C01.run ["xs"] sortedBody with
+  | ok s' =>
+    refine ⟨s', rfl, fun h0 => ?_⟩
+    rw [hr] at h; simp [C01.getsOf, h0] at h
+  | fatal s d => rw [hr] at h; simp [C01.getsOf] at h
+  | crash s e => rw [hr] at h; simp [C01.getsOf] at h
+
 
 /-- `a.b.c.d()` adds `a.b` and `a.b.c`, both with basename `a`. -/
 example : receiverPrefixes "a.b.c.d()".toList =
